@@ -257,15 +257,85 @@ def the_info(call):
     return call.info if call.info is not None else _parser.DEFAULTPARSER.info
 
 
+_T_IMPORT = time.time()
+
+
+def model_pivot(info=None):
+    """(year, century) of the two-digit-year rule handed to the MODEL: computed from the process clock, NOT read from the
+    implementation object (review3b F8).  parserinfo.__init__ takes `time.localtime().tm_year` when the object is built — some
+    moment between the import of this module and now, under whatever process zone was set then — so the legitimate values are
+    the calendar years of [import - 1 day, now + 1 day]; the object's own `_year` is consulted ONLY to pick among those (a
+    process that lives through New Year), and the century is always computed here.  A parserinfo whose `_year` is outside the
+    legitimate set, or whose `_century` is not `_year // 100 * 100`, makes the model (clock year) disagree with the
+    implementation on two-digit years: a correspondence mismatch, and `pivot_violations` reports it directly."""
+    now = time.time()
+    legit = sorted({time.gmtime(t).tm_year for t in (_T_IMPORT - 86400, _T_IMPORT, now, now + 86400)})
+    y = time.gmtime(now).tm_year
+    oy = getattr(info, "_year", None) if info is not None else None
+    if oy in legit:
+        y = oy
+    return y, y // 100 * 100
+
+
+def pivot_violations(infos):
+    """[(what, facts)] for parserinfo objects whose pivot is not the current year / its century (the objects the checks use:
+    a freshly built parserinfo(), DEFAULTPARSER.info, the custom classes)"""
+    out = []
+    for label, info in infos:
+        y, c = model_pivot(None)
+        my, mc = model_pivot(info)
+        if getattr(info, "_year", None) != my or getattr(info, "_century", None) != mc:
+            out.append(("parserinfo._year / _century must be the current year and its century (two-digit-year pivot)",
+                        {"text": None, "object": label, "_year": getattr(info, "_year", None),
+                         "_century": getattr(info, "_century", None), "clock_year": y, "clock_century": c}))
+    return out
+
+
+def pivot_oracle(ctx):
+    """the two-digit-year rule evaluated on the implementation against the PROCESS CLOCK (not against parserinfo._year): every
+    `MM/DD/YY` must resolve to the unique year congruent to YY within -50..+49 of the clock year, for the shared DEFAULTPARSER
+    and for a parserinfo built now; and the objects' `_year` / `_century` must be the clock's.  A wrong pivot in
+    parserinfo.__init__ (wrong year source, wrong century arithmetic) is reported here with the text as failing input (the
+    replay compares the implementation with the model, whose pivot also comes from the clock)."""
+    from dateutil import parser as P
+    fresh = P.parserinfo()
+    shown = 0
+    for label, info in (("DEFAULTPARSER.info", None), ("parserinfo()", fresh)):
+        obj = info if info is not None else P._parser.DEFAULTPARSER.info
+        y, _c = model_pivot(obj)
+        bad = pivot_violations([(label, obj)])
+        for yy in range(100):
+            c = Call("01/02/%02d" % yy, info=info, tag="pivot")
+            ans, _, got = run_impl(c, raw=True)
+            ctx.case(("pivot", label, yy))
+            ctx.count("two_digit_year_pivot_cases")
+            want = [v for v in range(y - 50, y + 50) if v % 100 == yy][0]
+            if not (ans.startswith("ok ") and got.year == want):
+                if shown < 6:
+                    case = c.describe()
+                    case.update({"object": label, "clock_year": y, "expected_year": want})
+                    ctx.violation("two-digit year must resolve to the unique year within -50..+49 of the current year (%d)" % y,
+                                  case, {"impl": ans, "pivot_facts": [f for _, f in bad]})
+                shown += 1
+        if bad and shown == 0:
+            # the attributes are wrong although every two-digit year still resolves right (cannot happen with the code as it
+            # is: convertyear reads exactly these two attributes) — still reported
+            what, facts = bad[0]
+            case = Call("01/02/03", info=info, tag="pivot").describe()
+            case.update(facts)
+            ctx.violation(what, case, {})
+
+
 def request(call):
     """driver request line for one call (process TZ as it is now)"""
     info = the_info(call)
+    year, century = model_pivot(info)
     d = call.default
     fl = lambda b: -1 if b is None else (1 if b else 0)
     flags = "[%d,%d,%d,%d,%d]" % (fl(call.dayfirst), fl(call.yearfirst), int(call.fuzzy), int(call.fwt), int(call.ignoretz))
     dflt = "[%d,%d,%d,%d,%d,%d,%d]" % (d.year, d.month, d.day, d.hour, d.minute, d.second, d.microsecond)
     tzn = ";".join(cps(n) for n in time.tzname)
-    return " ".join(["parser.parse", flags, dflt, str(info._year), str(info._century), tzn, call.tz.wire(),
+    return " ".join(["parser.parse", flags, dflt, str(year), str(century), tzn, call.tz.wire(),
                      info_wire(info, call.info_custom), cps(call.text), classes(call.text)])
 
 
@@ -314,8 +384,8 @@ def zone_of(dt, warned, dflt_tz=None):
     from dateutil import tz
     ti = dt.tzinfo
     if dflt_tz is not None and ti is dflt_tz:
-        # no zone was applied to the result: it still carries the tzinfo OBJECT of an aware `default=` (the model's `.naive`
-        # / `.naiveWarn` descriptors mean exactly "default.replace(...) as it is")
+        # no zone was applied to the result: it still carries the tzinfo OBJECT of an aware `default=` (the model's
+        # `FinalTz.ofDefault`); with a warning (`warn … dflt`) that is the repaired defect D-C15-aware-default-kept
         return ("warn " + cps(warned) + " dflt") if warned is not None else "dflt"
     if ti is None:
         if warned is not None:
@@ -390,15 +460,15 @@ def model_answers(ctx, calls):
     """model's canonical answers for calls made under the CURRENT process TZ (two driver phases)"""
     from dateutil import tz
     first = ctx.driver([request(c) for c in calls])
-    # an aware `default=`: where the model applies no zone (`.naive` / `.naiveWarn`) the result keeps the default's tzinfo
+    # the model (parseA / finalTz) says `dflt` where parse() leaves the tzinfo of `default=` untouched (row 5 of _build_tzaware:
+    # no zone information in the text) and `naive` / `warn` where it is None whatever the default carries (ignoretz, unknown
+    # abbreviation, a tzinfos entry None); for a NAIVE default `dflt` is naive
     for i, (c, r) in enumerate(zip(calls, first)):
-        if getattr(c.default, "tzinfo", None) is not None and r.startswith("ok "):
+        if r.startswith("ok "):
             parts = r.split(" | ")
-            if parts[1] == "naive":
-                parts[1] = "dflt"
-            elif parts[1].startswith("warn "):
-                parts[1] += " dflt"
-            first[i] = " | ".join(parts)
+            if parts[1] == "dflt" and getattr(c.default, "tzinfo", None) is None:
+                parts[1] = "naive"
+                first[i] = " | ".join(parts)
     out = list(first)
     second, where = [], []
     for i, (c, r) in enumerate(zip(calls, first)):
@@ -413,17 +483,18 @@ def model_answers(ctx, calls):
             out[i] = "bad-model-datetime " + r
             continue
         if kind == "local":
-            name = rest
+            name, tzoff = rest.split(" ")           # the parsed name and res.tzoffset (`-` = None)
             z = tz.tzlocal()
             try:
-                n0 = naive.replace(tzinfo=z).tzname()
-                n1 = naive.replace(tzinfo=z, fold=1).tzname()
+                a0, a1 = naive.replace(tzinfo=z), naive.replace(tzinfo=z, fold=1)
+                n0, n1 = a0.tzname(), a1.tzname()
+                o0, o1 = _secs(a0.utcoffset()), _secs(a1.utcoffset())
             except OverflowError:
                 # tzlocal.tzname() itself overflows next to 0001-01-01 / 9999-12-31 (`dt - dst_saved`): the zone
                 # object is outside the model, its exception propagates through `_assign_tzname` unchanged
                 out[i] = "err OverflowError"
                 continue
-            second.append("parser.localfinal %s %s %s" % (optname(n0), optname(n1), name))
+            second.append("parser.localfinal %s %s %s %s %s %s" % (optname(n0), optname(n1), o0, o1, name, tzoff))
             where.append((i, head, "local", naive, toks))
         else:
             data, name = rest.split(" ")
@@ -761,6 +832,8 @@ CALLEES = [
     ("tz/_common.py", "tzrangebase", "_naive_isdst", "PM.strIsdst (the `d` test)"),
     ("tz/tz.py", "tzlocal", "__init__", "environment: -time.timezone / -time.altzone (fed as the names / offsets a tzlocal() built now reports)"),
     ("tz/tz.py", "tzlocal", "tzname", "environment: n0 / n1 of parser.localfinal"),
+    ("tz/tz.py", "tzlocal", "utcoffset", "environment: o0 / o1 of parser.localfinal (`aware.utcoffset() != timedelta(0)` of the repaired local row; "
+                                         "same _isdst call as tzname(), which ran before it in _assign_tzname)"),
     ("tz/tz.py", "tzlocal", "_isdst", "environment (OverflowError next to 0001-01-01 / 9999-12-31 propagates unchanged)"),
     ("tz/tz.py", "tzlocal", "_naive_is_dst", "environment"),
     ("tz/tz.py", "tzlocal", "is_ambiguous", "environment"),
